@@ -27,3 +27,32 @@ pub(crate) fn peers_of(s: &PeersStore, info_hash: &Id) -> usize {
 pub(crate) fn caps(s: &PeersStore) -> (usize, usize) {
     (s.info_hashes.cap().get(), s.max_peers.get())
 }
+
+fn idp(b: u8) -> Id {
+    let mut x = [7u8; 20];
+    x[0] = b;
+    Id::from(x)
+}
+
+/// C20: the peer store never holds more info hashes or more peers per info hash than configured, and
+/// it is the least recently used entry that goes
+#[kani::proof]
+#[kani::unwind(22)]
+fn c20_peer_store_never_exceeds_its_capacities() {
+    let caps: usize = if kani::any() { 1 } else { 2 };
+    let mut s = PeersStore::new(NonZeroUsize::new(2).unwrap(), NonZeroUsize::new(caps).unwrap());
+    let h1 = idp(1);
+    s.add_peer(h1, (&idp(0x11), SocketAddrV4::new(1u32.into(), 1)));
+    s.add_peer(h1, (&idp(0x12), SocketAddrV4::new(2u32.into(), 2)));
+    s.add_peer(h1, (&idp(0x13), SocketAddrV4::new(3u32.into(), 3)));
+    assert!(peers_of(&s, &h1) == caps, "C20: at most max_peers_per_info_hash peers are kept for one info hash");
+    assert!(view(&s, &h1, &idp(0x13)).0 && !view(&s, &h1, &idp(0x11)).0, "C20: the most recent announcement is kept, the least recent one evicted");
+    s.add_peer(idp(2), (&idp(0x21), SocketAddrV4::new(4u32.into(), 4)));
+    s.add_peer(idp(3), (&idp(0x31), SocketAddrV4::new(5u32.into(), 5)));
+    assert!(info_hashes(&s) == 2, "C20: at most max_info_hashes info hashes are kept");
+    assert!(peers_of(&s, &h1) == 0 && peers_of(&s, &idp(3)) == 1, "C20: the least recently used info hash is the one evicted");
+    // announcing again under a known info hash and id replaces the endpoint, it does not add an entry
+    s.add_peer(idp(3), (&idp(0x31), SocketAddrV4::new(6u32.into(), 6)));
+    assert!(peers_of(&s, &idp(3)) == 1 && view(&s, &idp(3), &idp(0x31)) == (true, 6, 6));
+    core::mem::forget(s);
+}
